@@ -7,6 +7,18 @@ V = os.path.dirname(os.path.dirname(os.path.abspath(__file__)))
 TECH = "deterministic simulation with fault injection: "
 
 checks = {
+ "C01": dict(level="exploration", design="§4 C01",
+   technique=TECH + "seeded histories with restarts, failing external calls and client garbage; size invariant on every Flush plus unsized differential twin",
+   text="Seeded search over generated applications, contents, page indices and input histories with the output size drawn around the unlimited page lengths; invariant len(output) <= OutputSize on every page handed to the client, and comparison with an unsized twin at the same position to rule out silent truncation. Sampling, not proof.",
+   note="Trusted: output parser over sentinel-delimited generated templates; scripted external functions. One known finding (exit value appended without size check) is listed in known_findings.json and reported as KNOWN-FINDING."),
+ "C08": dict(level="exploration", design="§4 C08",
+   technique=TECH + "junk-heavy client histories with restarts and failing external calls over generated and example applications; recover() + consistency invariants + save/load/continue probe",
+   text="Seeded search over well-formed generated applications and the repository's examples (assembled with the real assembler), all modes and backends; the first requests of every example are swept systematically over its selector alphabet plus junk. Any panic of library code and any violated consistency invariant after a request is a violation. Sampling beyond the sweep depth.",
+   note="Trusted: well-formedness validator of the generator (targets exist, _catch defined, flags in range, no self-move, HALT on every move cycle); simfs/pgfake stubs for the fs and Postgres backends."),
+ "C17": dict(level="exploration", design="§4 C17",
+   technique=TECH + "client-garbage injection into histories, with/without differential twins, snapshot comparison before/after refused requests",
+   text="Seeded search over histories with refusal candidates and Flush-without-Exec probes inserted at drawn positions, long-lived and persisted operation on every backend; a refused request must produce no output, run no code, leave the live and the stored session unchanged, and the twin without the refused requests must see identical results. Sampling, not proof.",
+   note="Trusted: harness gateway; candidates the engine accepts are not refusals and end the comparison (counted)."),
  "C07": dict(level="exploration", design="§4 C07",
    technique=TECH + "seeded restart injection at request boundaries, differential twins (long-lived / persisted / mixed), tape shrinking",
    text="Seeded search over generated applications, configurations and input histories; every history is served by three twins of the real engine (one long-lived engine, a fresh engine+persister+store handle per request, fresh at a drawn subset) and all client-visible results must agree request by request. Sampling, not proof; no model of the VM is involved, so the check cannot mis-model the code.",
